@@ -384,6 +384,19 @@ impl Display for BaseRegLan {
     }
 }
 
+#[cfg(aws_smt_strings_verif)]
+impl RE {
+    /// Abstract syntax tree of this term (for external verification harnesses)
+    pub fn verif_expr(&self) -> &BaseRegLan {
+        &self.expr
+    }
+
+    /// Unique id of this term (for external verification harnesses)
+    pub fn verif_id(&self) -> usize {
+        self.id
+    }
+}
+
 impl Display for RE {
     fn fmt(&self, f: &mut std::fmt::Formatter<'_>) -> std::fmt::Result {
         self.expr.fmt(f)
